@@ -869,9 +869,15 @@ def parse_tree_to_objgraph(
         """
         Depth-first model object processing.
         """
+        # The meta-class of the object is looked up by its fully qualified
+        # name: it may come from a grammar which is imported only indirectly
+        # (by an imported grammar) and thus is not visible by its plain name.
+        cls_name = getattr(
+            model_obj.__class__, "_tx_fqn", model_obj.__class__.__name__
+        )
         try:
             if metaclass_of_grammar_rule is None:
-                metaclass_of_grammar_rule = metamodel[model_obj.__class__.__name__]
+                metaclass_of_grammar_rule = metamodel[cls_name]
         except KeyError as e:
             raise TextXSemanticError(
                 f'Unknown meta-class "{model_obj.__class__.__name__}".'
@@ -897,12 +903,8 @@ def parse_tree_to_objgraph(
 
         # enter recursive visit of attributes only, if the class of the
         # object being processed is a meta class of the current meta model
-        if model_obj.__class__.__name__ in metamodel:
-            if hasattr(model_obj, "_tx_fqn"):
-                current_metaclass_of_obj = metamodel[model_obj._tx_fqn]
-            else:
-                # fallback (not used - unsure if this case is required...):
-                current_metaclass_of_obj = metamodel[model_obj.__class__.__name__]
+        if cls_name in metamodel:
+            current_metaclass_of_obj = metamodel[cls_name]
             assert current_metaclass_of_obj is not None
 
             for metaattr in current_metaclass_of_obj._tx_attrs.values():
